@@ -150,6 +150,39 @@ Theorem C14_mdarray_from_mdspan : forall (T : Type) (dflt : T) l store base msrc
 Proof. exact c14_mdarray_from_mdspan_ok. Qed.
 Print Assumptions C14_mdarray_from_mdspan.
 
+(* --- the same with the ACCESSOR POLICY as an explicit, arbitrary component of the view (acc : handle -> offset -> cell):
+       a valid tuple reads the cell acc(h, map idx); inside the storage when acc sends [0, span size) into it; distinct
+       tuples reach distinct cells when acc is injective there; mdarray(mdspan) copies THROUGH the accessor *)
+Theorem C14_access_mdspan_acc : forall (T : Type) (store : list T) (acc : c14_accessor) h m idx, c14_wf m -> c14_valid idx (c14_ext m) ->
+  (forall k, 0 <= k < c14_required_span_size m -> 0 <= acc h k < Z.of_nat (length store)) ->
+  c14_view_get store acc h m idx = c14_get store (acc h (c14_map m idx)) /\
+  0 <= c14_map m idx < c14_required_span_size m /\
+  exists v, c14_view_get store acc h m idx = Some v.
+Proof. exact (@c14_view_access_acc). Qed.
+Print Assumptions C14_access_mdspan_acc.
+
+Theorem C14_access_distinct_acc : forall (acc : c14_accessor) h m i j, c14_wf m -> c14_unique m ->
+  c14_valid i (c14_ext m) -> c14_valid j (c14_ext m) ->
+  (forall k k', 0 <= k < c14_required_span_size m -> 0 <= k' < c14_required_span_size m -> acc h k = acc h k' -> k = k') ->
+  c14_view_cell acc h m i = c14_view_cell acc h m j -> i = j.
+Proof. exact c14_view_cells_distinct. Qed.
+Print Assumptions C14_access_distinct_acc.
+
+Theorem C14_mdarray_from_mdspan_acc : forall (T : Type) (dflt : T) l store (acc : c14_accessor) h msrc,
+  l <> C14_Stride -> c14_wf msrc -> c14_nonneg (c14_ext msrc) ->
+  (forall t, c14_valid t (c14_ext msrc) -> exists v, c14_view_get store acc h msrc t = Some v) ->
+  forall mdst, c14_relayout l msrc = Some mdst ->
+  exists cont, c14_mdarray_from_mdspan_acc dflt l store acc h msrc = Some (cont, mdst) /\
+    Z.of_nat (length cont) = c14_required_span_size mdst /\
+    forall t, c14_valid t (c14_ext msrc) -> c14_mdarray_get cont mdst t = c14_view_get store acc h msrc t.
+Proof. exact c14_mdarray_from_mdspan_acc_ok. Qed.
+Print Assumptions C14_mdarray_from_mdspan_acc.
+
+Theorem C14_default_accessor_instance : forall (T : Type) (store : list T) base m idx,
+  c14_view_get store c14_default_acc base m idx = c14_mdspan_get store base m idx.
+Proof. exact (@c14_view_get_default). Qed.
+Print Assumptions C14_default_accessor_instance.
+
 (* --- swap exchanges (data handle, mapping) of two views / (container, mapping) of two arrays, assignment copies them:
        afterwards every tuple designates the element the other object designated before *)
 Theorem C14_swap_views : forall x y idx,
@@ -253,3 +286,8 @@ Proof. exact c14_ex_convert_cross. Qed.
 Example C14_ex_perm : Permutation (combine [2; 3; 5] [15; 1; 3]) [(2, 15); (5, 3); (3, 1)] /\
   c14_stride_chain [(2, 15); (5, 3); (3, 1)].
 Proof. exact c14_ex_perm. Qed.
+Example C14_ex_from_mdspan_acc :   (* interleaved buffer, accessor 2*i+1 *)
+  c14_mdarray_from_mdspan_acc 0 C14_Right [10; 11; 12; 13; 14; 15; 16; 17; 18; 19; 20; 21; 22] (fun h i => h + 2 * i + 1) 0
+    (C14_Mapping C14_Right [2; 3] [])
+  = Some ([11; 13; 15; 17; 19; 21], C14_Mapping C14_Right [2; 3] []).
+Proof. vm_compute. reflexivity. Qed.
